@@ -119,18 +119,37 @@ Qed.
 Theorem explicit_conversion_identity : forall M sh s, render M PCast sh s = s.
 Proof. exact (fun M sh s => eq_refl). Qed.
 
+(* ---- "... still returns the secret for the code that needs it": the consumers -------------------
+   Every consumer of an opaque value in the anchored code (HTTP client headers and Host, HTTP
+   server response headers, gRPC metadata through the unary and the stream interceptor for
+   ordinary and for "-bin" keys, the TLS key pair) receives the secret itself.  The model says
+   [use c s = s] by definition (the code is string(v)); the content of this clause is the
+   correspondence run, which observes what arrives on the wire. *)
+Theorem actual_use_identity : forall c s, use c s = s.
+Proof. exact use_identity_l. Qed.
+
 (* ---- "unmarshalling stores the secret unchanged" ----------------------------------------------
-   FULL statement: forall u t, unmarshal opaque u t = t.  FALSE of the faithful model: finding
-   C14-SQUASH-REMARSHAL (unmarshal_stores_refuted, and for every text: squash_unmarshaler_stores_marker).
-   PROVED (partial) for every other decoding context. *)
-Theorem unmarshal_stores_partial : forall M u t, u <> UConfSquashUnmarshaler -> unmarshal M u t = t.
+   FULL statement: forall u t, unmarshal opaque u t = Stored t (with pre-/-post around t for the
+   inline expansion).  FALSE of the faithful model: findings C14-SQUASH-REMARSHAL
+   (squash_unmarshaler_stores_marker) and C14-EXPAND-POINTER (expanded_pointer_gets_parsed_value).
+   PROVED (partial) for every other decoding context: json, yaml, confmap plain / nested
+   Unmarshaler / squashed plain, and a text that comes from a provider expansion into a scalar
+   field, a map value or a slice element — whatever the text looks like to YAML. *)
+Theorem unmarshal_stores_partial : forall M u t, plain_ctx u = true -> unmarshal M u t = Stored t.
 Proof. exact unmarshal_partial_l. Qed.
 
-Theorem unmarshal_stores_refuted : exists u t, unmarshal opaque u t <> t.
+Theorem unmarshal_inline_expansion : forall M t, unmarshal M UExpInline t = Stored ("pre-" ++ t ++ "-post").
+Proof. exact unmarshal_inline_l. Qed.
+
+Theorem unmarshal_stores_refuted : exists u t, u <> UExpInline /\ unmarshal opaque u t <> Stored t.
 Proof. exact unmarshal_refuted_l. Qed.
 
-Theorem squash_unmarshaler_stores_marker : forall t, unmarshal opaque UConfSquashUnmarshaler t = marker.
+Theorem squash_unmarshaler_stores_marker : forall t, unmarshal opaque UConfSquashUnmarshaler t = Stored marker.
 Proof. exact unmarshal_squash_l. Qed.
+
+Theorem expanded_pointer_gets_parsed_value : forall M t,
+  unmarshal M (UExpPtr YNull) t = NilPtr /\ unmarshal M (UExpPtr YOther) t = DecodeError.
+Proof. exact unmarshal_ptr_l. Qed.
 
 Print Assumptions opaque_method_set_is_expected.
 Print Assumptions opaque_methods_ignore_receiver.
@@ -153,3 +172,6 @@ Print Assumptions explicit_conversion_identity.
 Print Assumptions unmarshal_stores_partial.
 Print Assumptions unmarshal_stores_refuted.
 Print Assumptions squash_unmarshaler_stores_marker.
+Print Assumptions actual_use_identity.
+Print Assumptions unmarshal_inline_expansion.
+Print Assumptions expanded_pointer_gets_parsed_value.
